@@ -11,6 +11,7 @@
    posix::poll makes that number depend on the durations); it is checked by the E1 monitors on the real code
    under the virtual clock. *)
 From Coq Require Import List NArith ZArith Bool.
+Require SP.Lib.WinComm SP.Proofs.WinCommProofs.
 Require Import SP.Params SP.Lib.Comm SP.Kernel.CommK SP.Kernel.CommSys
                SP.Proofs.CommBase SP.Proofs.CommReady SP.Proofs.CommInv SP.Proofs.CommTerm SP.Proofs.CommThms SP.Proofs.CommTime.
 Import ListNotations.
@@ -73,6 +74,18 @@ Theorem C04_deadline_is_start_plus_limit :
     deadline (gl g') = Some (now (gw g) + dur + tl)%N.
 Proof. exact deadline_is_start_plus_limit. Qed.
 Print Assumptions C04_deadline_is_start_plus_limit.
+
+Module Win.
+Import SP.Lib.WinComm SP.Proofs.WinCommProofs.
+Local Open Scope nat_scope.
+(* ---- the cfg(windows) thread variant ---- *)
+Theorem C04_win_no_timeout_without_deadline : forall (pi po pe : bool) (ci co ce : nat) (child : list cop) (input : list N) chs s c,
+  Forall good_choice chs -> wrun (winit pi po pe ci co ce child input) chs = Some s ->
+  call s = Some c -> m_phase c = MDone WTimedOut -> m_deadline c = true.
+Proof. exact win_no_timeout_without_deadline. Qed.
+Print Assumptions C04_win_no_timeout_without_deadline.
+
+End Win.
 
 Example C04_nonvacuous :
   let g0 := ginit false true false 4096 4096 4096 [CSleep 5000000; CWrite SOut [5;6]%N] [] None (Some 1000000%N) in
